@@ -103,6 +103,10 @@ def do_run(ids, tier):
             results[sid] = res
             print("%-14s exit=%s detected=%s %5.0fs %s" % (sid, res.get("exit"), res.get("detected"), res.get("wall_s", 0),
                                                          (res.get("first") or res.get("note") or res.get("tail", ""))[:170]), flush=True)
+    # merge into whatever another invocation may have written meanwhile
+    mine = {sid: results[sid] for sid in ids if sid in results}
+    results = json.load(open(res_path)) if os.path.exists(res_path) else {}
+    results.update(mine)
     json.dump(results, open(res_path, "w"), indent=1, sort_keys=True)
 
 
